@@ -75,6 +75,11 @@ class FilterSeq(Unit):
                     k = r.randint(0, 30)
                     pts.append([float(k) + r.choice([0, 0, 0.5]), float(30 - k) + r.choice([0, 0, -0.5, 1.0])])
             cases.append({"pts": pts})
+        # a long front (more mutually non-dominated points than any bounded memory would keep), then old members again
+        for n in (70, 100):
+            pts = [[float(i), float(n - i)] for i in range(n)]
+            pts += [[0.0, float(n)], [1.0, float(n) + 1.0], [float(n // 2), float(n - n // 2)], [0.5, float(n) - 0.5]]
+            cases.append({"pts": pts})
         return cases
 
     def impl(self, case):
